@@ -17,6 +17,8 @@ static void emit_context_error(
  * access to the TypeChecker, so type_check() consults this counter as well:
  * a program for which an error was reported is never accepted. */
 static int g_tc_emitted_errors = 0;
+/* "Error at line ..." reports count as errors as well */
+#define TC_ERRORF(...) do { g_tc_emitted_errors++; fprintf(stderr, __VA_ARGS__); } while (0)
 
 /* Type checking context */
 typedef struct {
@@ -148,7 +150,7 @@ static bool is_function_accessible(Function *func, Environment *env, int line, i
     
     /* Different module - check visibility */
     if (!func->is_pub) {
-        fprintf(stderr, "Error at line %d, column %d: Function '%s' is private to module '%s'\n",
+        TC_ERRORF("Error at line %d, column %d: Function '%s' is private to module '%s'\n",
                 line, column, func->name, func->module_name);
         fprintf(stderr, "  Note: Use 'pub fn %s(...)' to make it accessible from other modules\n",
                 func->name);
@@ -158,7 +160,7 @@ static bool is_function_accessible(Function *func, Environment *env, int line, i
 
     /* Check if symbol was explicitly imported via selective import */
     if (!is_symbol_imported(func->name, func->module_name, env)) {
-        fprintf(stderr, "Error at line %d, column %d: Function '%s' from module '%s' was not imported\n",
+        TC_ERRORF("Error at line %d, column %d: Function '%s' from module '%s' was not imported\n",
                 line, column, func->name, func->module_name);
         fprintf(stderr, "  Note: Add 'from \"%s\" import %s' to import this function\n",
                 func->module_name, func->name);
@@ -189,7 +191,7 @@ static bool is_struct_accessible(StructDef *sdef, Environment *env, int line, in
     
     /* Different module - check visibility */
     if (!sdef->is_pub) {
-        fprintf(stderr, "Error at line %d, column %d: Struct '%s' is private to module '%s'\n",
+        TC_ERRORF("Error at line %d, column %d: Struct '%s' is private to module '%s'\n",
                 line, column, sdef->name, sdef->module_name);
         fprintf(stderr, "  Note: Use 'pub struct %s { ... }' to make it accessible from other modules\n",
                 sdef->name);
@@ -668,7 +670,7 @@ static Type check_expression_impl(ASTNode *expr, Environment *env) {
             char **parts = expr->as.qualified_name.name_parts;
             
             if (part_count < 2) {
-                fprintf(stderr, "Error at line %d, column %d: Invalid qualified name (need at least 2 parts)\n",
+                TC_ERRORF("Error at line %d, column %d: Invalid qualified name (need at least 2 parts)\n",
                         expr->line, expr->column);
                 return TYPE_UNKNOWN;
             }
@@ -742,7 +744,7 @@ static Type check_expression_impl(ASTNode *expr, Environment *env) {
             }
             
             /* Nested modules not yet supported */
-            fprintf(stderr, "Error at line %d, column %d: Nested module paths not yet implemented\n",
+            TC_ERRORF("Error at line %d, column %d: Nested module paths not yet implemented\n",
                     expr->line, expr->column);
             return TYPE_UNKNOWN;
         }
@@ -765,10 +767,10 @@ static Type check_expression_impl(ASTNode *expr, Environment *env) {
                         if (elem == TYPE_UNKNOWN || elem == TYPE_INT || elem == TYPE_ENUM || elem == TYPE_FLOAT) {
                             return TYPE_ARRAY;
                         }
-                        fprintf(stderr, "Error at line %d, column %d: Unary minus requires array<int> or array<float>\n", expr->line, expr->column);
+                        TC_ERRORF("Error at line %d, column %d: Unary minus requires array<int> or array<float>\n", expr->line, expr->column);
                         return TYPE_UNKNOWN;
                     }
-                    fprintf(stderr, "Error at line %d, column %d: Unary minus requires numeric type\n", expr->line, expr->column);
+                    TC_ERRORF("Error at line %d, column %d: Unary minus requires numeric type\n", expr->line, expr->column);
                     return TYPE_UNKNOWN;
                 }
                 
@@ -820,7 +822,7 @@ static Type check_expression_impl(ASTNode *expr, Environment *env) {
 
                     if (op == TOKEN_PERCENT) {
                         if (left_elem == TYPE_INT && right_elem == TYPE_INT) return TYPE_ARRAY;
-                        fprintf(stderr, "Error at line %d, column %d: %% only supported on array<int> or array<u8>\n", expr->line, expr->column);
+                        TC_ERRORF("Error at line %d, column %d: %% only supported on array<int> or array<u8>\n", expr->line, expr->column);
                         return TYPE_UNKNOWN;
                     }
 
@@ -1016,7 +1018,7 @@ static Type check_expression_impl(ASTNode *expr, Environment *env) {
                 /* First, check the inner function call */
                 Type inner_type = check_expression(expr->as.call.func_expr, env);
                 if (inner_type != TYPE_FUNCTION) {
-                    fprintf(stderr, "Error at line %d, column %d: Expression does not return a function\n",
+                    TC_ERRORF("Error at line %d, column %d: Expression does not return a function\n",
                             expr->line, expr->column);
                     return TYPE_UNKNOWN;
                 }
@@ -1070,7 +1072,7 @@ static Type check_expression_impl(ASTNode *expr, Environment *env) {
             /* Result<T, E> helper intrinsics (generic-function stopgap) */
             if (strcmp(expr->as.call.name, "result_is_ok") == 0 || strcmp(expr->as.call.name, "result_is_err") == 0) {
                 if (expr->as.call.arg_count != 1) {
-                    fprintf(stderr, "Error at line %d, column %d: %s requires 1 argument\n",
+                    TC_ERRORF("Error at line %d, column %d: %s requires 1 argument\n",
                             expr->line, expr->column, expr->as.call.name);
                     return TYPE_UNKNOWN;
                 }
@@ -1083,7 +1085,7 @@ static Type check_expression_impl(ASTNode *expr, Environment *env) {
                 strcmp(expr->as.call.name, "result_unwrap_or") == 0) {
                 int expected = (strcmp(expr->as.call.name, "result_unwrap_or") == 0) ? 2 : 1;
                 if (expr->as.call.arg_count != expected) {
-                    fprintf(stderr, "Error at line %d, column %d: %s requires %d argument(s)\n",
+                    TC_ERRORF("Error at line %d, column %d: %s requires %d argument(s)\n",
                             expr->line, expr->column, expr->as.call.name, expected);
                     return TYPE_UNKNOWN;
                 }
@@ -1091,7 +1093,7 @@ static Type check_expression_impl(ASTNode *expr, Environment *env) {
                 ASTNode *res_expr = expr->as.call.args[0];
                 Type res_type = check_expression(res_expr, env);
                 if (res_type != TYPE_UNION) {
-                    fprintf(stderr, "Error at line %d, column %d: %s requires a Result<T, E> union value\n",
+                    TC_ERRORF("Error at line %d, column %d: %s requires a Result<T, E> union value\n",
                             expr->line, expr->column, expr->as.call.name);
                     return TYPE_UNKNOWN;
                 }
@@ -1113,7 +1115,7 @@ static Type check_expression_impl(ASTNode *expr, Environment *env) {
                 if (strcmp(expr->as.call.name, "result_unwrap_or") == 0) {
                     Type default_type = check_expression(expr->as.call.args[1], env);
                     if (default_type != out_type) {
-                        fprintf(stderr, "Error at line %d, column %d: result_unwrap_or default value type mismatch\n",
+                        TC_ERRORF("Error at line %d, column %d: result_unwrap_or default value type mismatch\n",
                                 expr->line, expr->column);
                     }
                 }
@@ -1123,7 +1125,7 @@ static Type check_expression_impl(ASTNode *expr, Environment *env) {
 
             if (strcmp(expr->as.call.name, "result_map") == 0 || strcmp(expr->as.call.name, "result_and_then") == 0) {
                 if (expr->as.call.arg_count != 2) {
-                    fprintf(stderr, "Error at line %d, column %d: %s requires 2 arguments\n",
+                    TC_ERRORF("Error at line %d, column %d: %s requires 2 arguments\n",
                             expr->line, expr->column, expr->as.call.name);
                     return TYPE_UNKNOWN;
                 }
@@ -1377,14 +1379,14 @@ static Type check_expression_impl(ASTNode *expr, Environment *env) {
                 /* HashMap<K,V> core built-ins (only if no user-defined function with same name exists) */
                 if (strcmp(expr->as.call.name, "map_new") == 0) {
                     if (expr->as.call.arg_count != 0) {
-                        fprintf(stderr, "Error at line %d, column %d: map_new requires 0 arguments\n",
+                        TC_ERRORF("Error at line %d, column %d: map_new requires 0 arguments\n",
                                 expr->line, expr->column);
                         return TYPE_UNKNOWN;
                     }
 
                     /* Requires type context (e.g., let hm: HashMap<K,V> = (map_new)) */
                     if (!expr->as.call.return_struct_type_name) {
-                        fprintf(stderr, "Error at line %d, column %d: map_new requires a HashMap<K,V> type annotation\n",
+                        TC_ERRORF("Error at line %d, column %d: map_new requires a HashMap<K,V> type annotation\n",
                                 expr->line, expr->column);
                         return TYPE_UNKNOWN;
                     }
@@ -1393,7 +1395,7 @@ static Type check_expression_impl(ASTNode *expr, Environment *env) {
 
                 if (strcmp(expr->as.call.name, "map_put") == 0 || strcmp(expr->as.call.name, "map_set") == 0) {
                     if (expr->as.call.arg_count != 3) {
-                        fprintf(stderr, "Error at line %d, column %d: %s requires 3 arguments\n",
+                        TC_ERRORF("Error at line %d, column %d: %s requires 3 arguments\n",
                                 expr->line, expr->column, expr->as.call.name);
                         return TYPE_UNKNOWN;
                     }
@@ -1401,7 +1403,7 @@ static Type check_expression_impl(ASTNode *expr, Environment *env) {
                     Type key_t = check_expression(expr->as.call.args[1], env);
                     Type val_t = check_expression(expr->as.call.args[2], env);
                     if (hm_t != TYPE_HASHMAP) {
-                        fprintf(stderr, "Error at line %d, column %d: %s expects HashMap as first argument\n",
+                        TC_ERRORF("Error at line %d, column %d: %s expects HashMap as first argument\n",
                                 expr->line, expr->column, expr->as.call.name);
                         return TYPE_UNKNOWN;
                     }
@@ -1409,12 +1411,12 @@ static Type check_expression_impl(ASTNode *expr, Environment *env) {
                     Type exp_k = TYPE_UNKNOWN;
                     Type exp_v = TYPE_UNKNOWN;
                     if (!hashmap_extract_kv(hm_info, &exp_k, &exp_v)) {
-                        fprintf(stderr, "Error at line %d, column %d: Cannot infer HashMap<K,V> type arguments\n",
+                        TC_ERRORF("Error at line %d, column %d: Cannot infer HashMap<K,V> type arguments\n",
                                 expr->line, expr->column);
                         return TYPE_UNKNOWN;
                     }
                     if (!types_match(key_t, exp_k) || !types_match(val_t, exp_v)) {
-                        fprintf(stderr, "Error at line %d, column %d: %s expects key %s and value %s\n",
+                        TC_ERRORF("Error at line %d, column %d: %s expects key %s and value %s\n",
                                 expr->line, expr->column, expr->as.call.name, type_to_string(exp_k), type_to_string(exp_v));
                         return TYPE_UNKNOWN;
                     }
@@ -1423,14 +1425,14 @@ static Type check_expression_impl(ASTNode *expr, Environment *env) {
 
                 if (strcmp(expr->as.call.name, "map_get") == 0) {
                     if (expr->as.call.arg_count != 2) {
-                        fprintf(stderr, "Error at line %d, column %d: map_get requires 2 arguments\n",
+                        TC_ERRORF("Error at line %d, column %d: map_get requires 2 arguments\n",
                                 expr->line, expr->column);
                         return TYPE_UNKNOWN;
                     }
                     Type hm_t = check_expression(expr->as.call.args[0], env);
                     Type key_t = check_expression(expr->as.call.args[1], env);
                     if (hm_t != TYPE_HASHMAP) {
-                        fprintf(stderr, "Error at line %d, column %d: map_get expects HashMap as first argument\n",
+                        TC_ERRORF("Error at line %d, column %d: map_get expects HashMap as first argument\n",
                                 expr->line, expr->column);
                         return TYPE_UNKNOWN;
                     }
@@ -1438,12 +1440,12 @@ static Type check_expression_impl(ASTNode *expr, Environment *env) {
                     Type exp_k = TYPE_UNKNOWN;
                     Type exp_v = TYPE_UNKNOWN;
                     if (!hashmap_extract_kv(hm_info, &exp_k, &exp_v)) {
-                        fprintf(stderr, "Error at line %d, column %d: Cannot infer HashMap<K,V> type arguments\n",
+                        TC_ERRORF("Error at line %d, column %d: Cannot infer HashMap<K,V> type arguments\n",
                                 expr->line, expr->column);
                         return TYPE_UNKNOWN;
                     }
                     if (!types_match(key_t, exp_k)) {
-                        fprintf(stderr, "Error at line %d, column %d: map_get expects key type %s\n",
+                        TC_ERRORF("Error at line %d, column %d: map_get expects key type %s\n",
                                 expr->line, expr->column, type_to_string(exp_k));
                         return TYPE_UNKNOWN;
                     }
@@ -1452,26 +1454,26 @@ static Type check_expression_impl(ASTNode *expr, Environment *env) {
 
                 if (strcmp(expr->as.call.name, "map_has") == 0) {
                     if (expr->as.call.arg_count != 2) {
-                        fprintf(stderr, "Error at line %d, column %d: map_has requires 2 arguments\n",
+                        TC_ERRORF("Error at line %d, column %d: map_has requires 2 arguments\n",
                                 expr->line, expr->column);
                         return TYPE_UNKNOWN;
                     }
                     Type hm_t = check_expression(expr->as.call.args[0], env);
                     Type key_t = check_expression(expr->as.call.args[1], env);
                     if (hm_t != TYPE_HASHMAP) {
-                        fprintf(stderr, "Error at line %d, column %d: map_has expects HashMap as first argument\n",
+                        TC_ERRORF("Error at line %d, column %d: map_has expects HashMap as first argument\n",
                                 expr->line, expr->column);
                         return TYPE_UNKNOWN;
                     }
                     TypeInfo *hm_info = try_get_expr_type_info(expr->as.call.args[0], env);
                     Type exp_k = TYPE_UNKNOWN;
                     if (!hashmap_extract_kv(hm_info, &exp_k, NULL)) {
-                        fprintf(stderr, "Error at line %d, column %d: Cannot infer HashMap<K,V> type arguments\n",
+                        TC_ERRORF("Error at line %d, column %d: Cannot infer HashMap<K,V> type arguments\n",
                                 expr->line, expr->column);
                         return TYPE_UNKNOWN;
                     }
                     if (!types_match(key_t, exp_k)) {
-                        fprintf(stderr, "Error at line %d, column %d: map_has expects key type %s\n",
+                        TC_ERRORF("Error at line %d, column %d: map_has expects key type %s\n",
                                 expr->line, expr->column, type_to_string(exp_k));
                         return TYPE_UNKNOWN;
                     }
@@ -1480,26 +1482,26 @@ static Type check_expression_impl(ASTNode *expr, Environment *env) {
 
                 if (strcmp(expr->as.call.name, "map_remove") == 0) {
                     if (expr->as.call.arg_count != 2) {
-                        fprintf(stderr, "Error at line %d, column %d: map_remove requires 2 arguments\n",
+                        TC_ERRORF("Error at line %d, column %d: map_remove requires 2 arguments\n",
                                 expr->line, expr->column);
                         return TYPE_UNKNOWN;
                     }
                     Type hm_t = check_expression(expr->as.call.args[0], env);
                     Type key_t = check_expression(expr->as.call.args[1], env);
                     if (hm_t != TYPE_HASHMAP) {
-                        fprintf(stderr, "Error at line %d, column %d: map_remove expects HashMap as first argument\n",
+                        TC_ERRORF("Error at line %d, column %d: map_remove expects HashMap as first argument\n",
                                 expr->line, expr->column);
                         return TYPE_UNKNOWN;
                     }
                     TypeInfo *hm_info = try_get_expr_type_info(expr->as.call.args[0], env);
                     Type exp_k = TYPE_UNKNOWN;
                     if (!hashmap_extract_kv(hm_info, &exp_k, NULL)) {
-                        fprintf(stderr, "Error at line %d, column %d: Cannot infer HashMap<K,V> type arguments\n",
+                        TC_ERRORF("Error at line %d, column %d: Cannot infer HashMap<K,V> type arguments\n",
                                 expr->line, expr->column);
                         return TYPE_UNKNOWN;
                     }
                     if (!types_match(key_t, exp_k)) {
-                        fprintf(stderr, "Error at line %d, column %d: map_remove expects key type %s\n",
+                        TC_ERRORF("Error at line %d, column %d: map_remove expects key type %s\n",
                                 expr->line, expr->column, type_to_string(exp_k));
                         return TYPE_UNKNOWN;
                     }
@@ -1508,13 +1510,13 @@ static Type check_expression_impl(ASTNode *expr, Environment *env) {
 
                 if (strcmp(expr->as.call.name, "map_length") == 0 || strcmp(expr->as.call.name, "map_size") == 0) {
                     if (expr->as.call.arg_count != 1) {
-                        fprintf(stderr, "Error at line %d, column %d: %s requires 1 argument\n",
+                        TC_ERRORF("Error at line %d, column %d: %s requires 1 argument\n",
                                 expr->line, expr->column, expr->as.call.name);
                         return TYPE_UNKNOWN;
                     }
                     Type hm_t = check_expression(expr->as.call.args[0], env);
                     if (hm_t != TYPE_HASHMAP) {
-                        fprintf(stderr, "Error at line %d, column %d: %s expects HashMap as first argument\n",
+                        TC_ERRORF("Error at line %d, column %d: %s expects HashMap as first argument\n",
                                 expr->line, expr->column, expr->as.call.name);
                         return TYPE_UNKNOWN;
                     }
@@ -1523,13 +1525,13 @@ static Type check_expression_impl(ASTNode *expr, Environment *env) {
 
                 if (strcmp(expr->as.call.name, "map_clear") == 0 || strcmp(expr->as.call.name, "map_free") == 0) {
                     if (expr->as.call.arg_count != 1) {
-                        fprintf(stderr, "Error at line %d, column %d: %s requires 1 argument\n",
+                        TC_ERRORF("Error at line %d, column %d: %s requires 1 argument\n",
                                 expr->line, expr->column, expr->as.call.name);
                         return TYPE_UNKNOWN;
                     }
                     Type hm_t = check_expression(expr->as.call.args[0], env);
                     if (hm_t != TYPE_HASHMAP) {
-                        fprintf(stderr, "Error at line %d, column %d: %s expects HashMap as first argument\n",
+                        TC_ERRORF("Error at line %d, column %d: %s expects HashMap as first argument\n",
                                 expr->line, expr->column, expr->as.call.name);
                         return TYPE_UNKNOWN;
                     }
@@ -1538,13 +1540,13 @@ static Type check_expression_impl(ASTNode *expr, Environment *env) {
 
                 if (strcmp(expr->as.call.name, "map_keys") == 0 || strcmp(expr->as.call.name, "map_values") == 0) {
                     if (expr->as.call.arg_count != 1) {
-                        fprintf(stderr, "Error at line %d, column %d: %s requires 1 argument\n",
+                        TC_ERRORF("Error at line %d, column %d: %s requires 1 argument\n",
                                 expr->line, expr->column, expr->as.call.name);
                         return TYPE_UNKNOWN;
                     }
                     Type hm_t = check_expression(expr->as.call.args[0], env);
                     if (hm_t != TYPE_HASHMAP) {
-                        fprintf(stderr, "Error at line %d, column %d: %s expects HashMap as first argument\n",
+                        TC_ERRORF("Error at line %d, column %d: %s expects HashMap as first argument\n",
                                 expr->line, expr->column, expr->as.call.name);
                         return TYPE_UNKNOWN;
                     }
@@ -1745,7 +1747,7 @@ static Type check_expression_impl(ASTNode *expr, Environment *env) {
                             if (func->params[i].type == TYPE_STRUCT && func->params[i].struct_type_name) {
                                 arg->as.struct_literal.struct_name = strdup(func->params[i].struct_type_name);
                             } else {
-                                fprintf(stderr, "Error at line %d, column %d: Cannot infer struct type for anonymous literal in function argument\n",
+                                TC_ERRORF("Error at line %d, column %d: Cannot infer struct type for anonymous literal in function argument\n",
                                         arg->line, arg->column);
                             }
                         }
@@ -2169,7 +2171,7 @@ static Type check_expression_impl(ASTNode *expr, Environment *env) {
                 for (int i = 1; i < expr->as.cond_expr.clause_count; i++) {
                     Type val_type = check_expression(expr->as.cond_expr.values[i], env);
                     if (val_type != result_type && result_type != TYPE_UNKNOWN && val_type != TYPE_UNKNOWN) {
-                        fprintf(stderr, "Error at line %d, column %d: All cond clause values must have the same type\n",
+                        TC_ERRORF("Error at line %d, column %d: All cond clause values must have the same type\n",
                                 expr->line, expr->column);
                     }
                 }
@@ -2178,7 +2180,7 @@ static Type check_expression_impl(ASTNode *expr, Environment *env) {
             /* Type check else value (must match clause values) */
             Type else_type = check_expression(expr->as.cond_expr.else_value, env);
             if (else_type != result_type && result_type != TYPE_UNKNOWN && else_type != TYPE_UNKNOWN) {
-                fprintf(stderr, "Error at line %d, column %d: Cond else value must have the same type as clause values\n",
+                TC_ERRORF("Error at line %d, column %d: Cond else value must have the same type as clause values\n",
                         expr->line, expr->column);
             }
             
@@ -2188,7 +2190,7 @@ static Type check_expression_impl(ASTNode *expr, Environment *env) {
         case AST_STRUCT_LITERAL: {
             /* Check if struct name was inferred (should happen in let/return/call context) */
             if (expr->as.struct_literal.struct_name == NULL) {
-                fprintf(stderr, "Error at line %d, column %d: Anonymous struct literal requires type context\n",
+                TC_ERRORF("Error at line %d, column %d: Anonymous struct literal requires type context\n",
                         expr->line, expr->column);
                 return TYPE_UNKNOWN;
             }
@@ -2215,7 +2217,7 @@ static Type check_expression_impl(ASTNode *expr, Environment *env) {
                 /* Find the variant index */
                 int variant_idx = env_get_union_variant_index(env, union_name, variant_name);
                 if (variant_idx < 0) {
-                    fprintf(stderr, "Error at line %d, column %d: Unknown variant '%s' in union '%s'\n",
+                    TC_ERRORF("Error at line %d, column %d: Unknown variant '%s' in union '%s'\n",
                             expr->line, expr->column, variant_name, union_name);
                     free(union_name);
                     return TYPE_UNKNOWN;
@@ -2223,7 +2225,7 @@ static Type check_expression_impl(ASTNode *expr, Environment *env) {
                 
                 /* Verify field count matches */
                 if (expr->as.struct_literal.field_count != udef->variant_field_counts[variant_idx]) {
-                    fprintf(stderr, "Error at line %d, column %d: Variant '%s.%s' expects %d fields, got %d\n",
+                    TC_ERRORF("Error at line %d, column %d: Variant '%s.%s' expects %d fields, got %d\n",
                             expr->line, expr->column, union_name, variant_name,
                             udef->variant_field_counts[variant_idx], expr->as.struct_literal.field_count);
                     free(union_name);
@@ -2261,7 +2263,7 @@ static Type check_expression_impl(ASTNode *expr, Environment *env) {
                     }
 
                     if (!types_match(field_type, expected)) {
-                        fprintf(stderr, "Error at line %d, column %d: Field type mismatch in variant '%s.%s'\n",
+                        TC_ERRORF("Error at line %d, column %d: Field type mismatch in variant '%s.%s'\n",
                                 expr->line, expr->column, union_name, variant_name);
                     }
 
@@ -2279,7 +2281,7 @@ static Type check_expression_impl(ASTNode *expr, Environment *env) {
             /* Check that struct is defined */
             StructDef *sdef = env_get_struct(env, expr->as.struct_literal.struct_name);
             if (!sdef) {
-                fprintf(stderr, "Error at line %d, column %d: Undefined struct '%s'\n",
+                TC_ERRORF("Error at line %d, column %d: Undefined struct '%s'\n",
                         expr->line, expr->column, expr->as.struct_literal.struct_name);
                 return TYPE_UNKNOWN;
             }
@@ -2292,7 +2294,7 @@ static Type check_expression_impl(ASTNode *expr, Environment *env) {
             
             /* Check that all fields are provided and types match */
             if (expr->as.struct_literal.field_count != sdef->field_count) {
-                fprintf(stderr, "Error at line %d, column %d: Struct '%s' expects %d fields, got %d\n",
+                TC_ERRORF("Error at line %d, column %d: Struct '%s' expects %d fields, got %d\n",
                         expr->line, expr->column, expr->as.struct_literal.struct_name,
                         sdef->field_count, expr->as.struct_literal.field_count);
                 return TYPE_UNKNOWN;
@@ -2312,7 +2314,7 @@ static Type check_expression_impl(ASTNode *expr, Environment *env) {
                 }
                 
                 if (field_index == -1) {
-                    fprintf(stderr, "Error at line %d, column %d: Unknown field '%s' in struct '%s'\n",
+                    TC_ERRORF("Error at line %d, column %d: Unknown field '%s' in struct '%s'\n",
                             expr->line, expr->column, field_name, expr->as.struct_literal.struct_name);
                     fprintf(stderr, "  Known fields:");
                     for (int j = 0; j < sdef->field_count; j++) {
@@ -2325,7 +2327,7 @@ static Type check_expression_impl(ASTNode *expr, Environment *env) {
                 /* Check field type */
                 Type field_type = check_expression(expr->as.struct_literal.field_values[i], env);
                 if (!types_match(field_type, sdef->field_types[field_index])) {
-                    fprintf(stderr, "Error at line %d, column %d: Field '%s' type mismatch in struct '%s' (expected %s, got %s)\n",
+                    TC_ERRORF("Error at line %d, column %d: Field '%s' type mismatch in struct '%s' (expected %s, got %s)\n",
                             expr->line, expr->column, field_name, expr->as.struct_literal.struct_name,
                             type_to_string(sdef->field_types[field_index]), type_to_string(field_type));
                 }
@@ -2390,7 +2392,7 @@ static Type check_expression_impl(ASTNode *expr, Environment *env) {
             /* Get the specific struct type name */
             const char *struct_name = get_struct_type_name(expr->as.field_access.object, env);
             if (!struct_name) {
-                fprintf(stderr, "Error at line %d, column %d: Cannot determine struct type for field access\n",
+                TC_ERRORF("Error at line %d, column %d: Cannot determine struct type for field access\n",
                         expr->line, expr->column);
                 return TYPE_UNKNOWN;
             }
@@ -2416,7 +2418,7 @@ static Type check_expression_impl(ASTNode *expr, Environment *env) {
                 /* Find the variant */
                 int variant_idx = env_get_union_variant_index(env, union_name, variant_name);
                 if (variant_idx < 0) {
-                    fprintf(stderr, "Error at line %d, column %d: Unknown variant '%s' in union '%s'\n",
+                    TC_ERRORF("Error at line %d, column %d: Unknown variant '%s' in union '%s'\n",
                             expr->line, expr->column, variant_name, union_name);
                     free(union_name);
                     return TYPE_UNKNOWN;
@@ -2460,7 +2462,7 @@ static Type check_expression_impl(ASTNode *expr, Environment *env) {
                 }
                 
                 /* Field not found */
-                fprintf(stderr, "Error at line %d, column %d: Variant '%s' of union '%s' has no field '%s'\n",
+                TC_ERRORF("Error at line %d, column %d: Variant '%s' of union '%s' has no field '%s'\n",
                         expr->line, expr->column, variant_name, union_name, field_name);
                 free(union_name);
                 return TYPE_UNKNOWN;
@@ -2472,7 +2474,7 @@ static Type check_expression_impl(ASTNode *expr, Environment *env) {
             /* Look up the struct definition */
             StructDef *sdef = env_get_struct(env, struct_name);
             if (!sdef) {
-                fprintf(stderr, "Error at line %d, column %d: Undefined struct '%s'\n",
+                TC_ERRORF("Error at line %d, column %d: Undefined struct '%s'\n",
                         expr->line, expr->column, struct_name);
                 return TYPE_UNKNOWN;
             }
@@ -2486,7 +2488,7 @@ static Type check_expression_impl(ASTNode *expr, Environment *env) {
             }
             
             /* Field not found */
-            fprintf(stderr, "Error at line %d, column %d: Struct '%s' has no field '%s'\n",
+            TC_ERRORF("Error at line %d, column %d: Struct '%s' has no field '%s'\n",
                     expr->line, expr->column, struct_name, field_name);
             return TYPE_UNKNOWN;
         }
@@ -2495,7 +2497,7 @@ static Type check_expression_impl(ASTNode *expr, Environment *env) {
             /* Check that union is defined */
             UnionDef *udef = env_get_union(env, expr->as.union_construct.union_name);
             if (!udef) {
-                fprintf(stderr, "Error at line %d, column %d: Undefined union '%s'\n",
+                TC_ERRORF("Error at line %d, column %d: Undefined union '%s'\n",
                         expr->line, expr->column, expr->as.union_construct.union_name);
                 return TYPE_UNKNOWN;
             }
@@ -2505,7 +2507,7 @@ static Type check_expression_impl(ASTNode *expr, Environment *env) {
                 expr->as.union_construct.union_name, 
                 expr->as.union_construct.variant_name);
             if (variant_idx < 0) {
-                fprintf(stderr, "Error at line %d, column %d: Unknown variant '%s' in union '%s'\n",
+                TC_ERRORF("Error at line %d, column %d: Unknown variant '%s' in union '%s'\n",
                         expr->line, expr->column, 
                         expr->as.union_construct.variant_name,
                         expr->as.union_construct.union_name);
@@ -2515,7 +2517,7 @@ static Type check_expression_impl(ASTNode *expr, Environment *env) {
             /* Check that field count matches */
             int expected_field_count = udef->variant_field_counts[variant_idx];
             if (expr->as.union_construct.field_count != expected_field_count) {
-                fprintf(stderr, "Error at line %d, column %d: Variant '%s' expects %d fields, got %d\n",
+                TC_ERRORF("Error at line %d, column %d: Variant '%s' expects %d fields, got %d\n",
                         expr->line, expr->column,
                         expr->as.union_construct.variant_name,
                         expected_field_count,
@@ -2537,7 +2539,7 @@ static Type check_expression_impl(ASTNode *expr, Environment *env) {
                 }
                 
                 if (field_index < 0) {
-                    fprintf(stderr, "Error at line %d, column %d: Unknown field '%s' in variant '%s'\n",
+                    TC_ERRORF("Error at line %d, column %d: Unknown field '%s' in variant '%s'\n",
                             expr->line, expr->column, field_name,
                             expr->as.union_construct.variant_name);
                     return TYPE_UNKNOWN;
@@ -2554,7 +2556,7 @@ static Type check_expression_impl(ASTNode *expr, Environment *env) {
                     /* This is likely a generic type parameter - accept it for now */
                     /* The transpiler will handle concrete type generation */
                 } else if (actual_type != expected_type) {
-                    fprintf(stderr, "Error at line %d, column %d: Field '%s' expects type '%s', got '%s'\n",
+                    TC_ERRORF("Error at line %d, column %d: Field '%s' expects type '%s', got '%s'\n",
                             expr->line, expr->column, field_name,
                             type_to_string(expected_type),
                             type_to_string(actual_type));
@@ -2569,7 +2571,7 @@ static Type check_expression_impl(ASTNode *expr, Environment *env) {
             /* Check the expression being matched */
             Type match_type = check_expression(expr->as.match_expr.expr, env);
             if (match_type != TYPE_UNION) {
-                fprintf(stderr, "Error at line %d, column %d: Match expression must be a union type\n",
+                TC_ERRORF("Error at line %d, column %d: Match expression must be a union type\n",
                         expr->line, expr->column);
                 return TYPE_UNKNOWN;
             }
@@ -2678,7 +2680,7 @@ static Type check_expression_impl(ASTNode *expr, Environment *env) {
                 if (i == 0) {
                     return_type = arm_type;
                 } else if (arm_type != return_type && arm_type != TYPE_VOID) {
-                    fprintf(stderr, "Error at line %d, column %d: Match arms must all return the same type\n",
+                    TC_ERRORF("Error at line %d, column %d: Match arms must all return the same type\n",
                             expr->line, expr->column);
                 }
             }
@@ -2790,7 +2792,7 @@ static Type check_expression_impl(ASTNode *expr, Environment *env) {
             for (int i = 0; i < element_count; i++) {
                 Type elem_type = check_expression(expr->as.tuple_literal.elements[i], env);
                 if (elem_type == TYPE_UNKNOWN) {
-                    fprintf(stderr, "Error at line %d, column %d: Tuple element %d has unknown type\n",
+                    TC_ERRORF("Error at line %d, column %d: Tuple element %d has unknown type\n",
                             expr->line, expr->column, i);
                     return TYPE_UNKNOWN;
                 }
@@ -2805,7 +2807,7 @@ static Type check_expression_impl(ASTNode *expr, Environment *env) {
             Type tuple_type = check_expression(expr->as.tuple_index.tuple, env);
             
             if (tuple_type != TYPE_TUPLE) {
-                fprintf(stderr, "Error at line %d, column %d: Tuple index access on non-tuple type\n",
+                TC_ERRORF("Error at line %d, column %d: Tuple index access on non-tuple type\n",
                         expr->line, expr->column);
                 return TYPE_UNKNOWN;
             }
@@ -2818,7 +2820,7 @@ static Type check_expression_impl(ASTNode *expr, Environment *env) {
             if (tuple_expr->type == AST_TUPLE_LITERAL) {
                 int element_count = tuple_expr->as.tuple_literal.element_count;
                 if (index < 0 || index >= element_count) {
-                    fprintf(stderr, "Error at line %d, column %d: Tuple index %d out of bounds (tuple has %d elements)\n",
+                    TC_ERRORF("Error at line %d, column %d: Tuple index %d out of bounds (tuple has %d elements)\n",
                             expr->line, expr->column, index, element_count);
                     return TYPE_UNKNOWN;
                 }
@@ -2836,7 +2838,7 @@ static Type check_expression_impl(ASTNode *expr, Environment *env) {
                     
                     /* Check bounds */
                     if (index < 0 || index >= type_info->tuple_element_count) {
-                        fprintf(stderr, "Error at line %d, column %d: Tuple index %d out of bounds (tuple has %d elements)\n",
+                        TC_ERRORF("Error at line %d, column %d: Tuple index %d out of bounds (tuple has %d elements)\n",
                                 expr->line, expr->column, index, type_info->tuple_element_count);
                         return TYPE_UNKNOWN;
                     }
@@ -2854,7 +2856,7 @@ static Type check_expression_impl(ASTNode *expr, Environment *env) {
         }
 
         default:
-            fprintf(stderr, "Error at line %d, column %d: Invalid expression type\n", expr->line, expr->column);
+            TC_ERRORF("Error at line %d, column %d: Invalid expression type\n", expr->line, expr->column);
             return TYPE_UNKNOWN;
     }
 }
@@ -2894,7 +2896,7 @@ static Type check_statement_impl(TypeChecker *tc, ASTNode *stmt) {
                 
                 /* Verify element type exists (struct or enum must be defined) */
                 if (!env_get_struct(tc->env, element_type) && !env_get_enum(tc->env, element_type)) {
-                    fprintf(stderr, "Error at line %d, column %d: Unknown type '%s' in List<%s>\n",
+                    TC_ERRORF("Error at line %d, column %d: Unknown type '%s' in List<%s>\n",
                             stmt->line, stmt->column, element_type, element_type);
                     tc->has_error = true;
                 } else {
@@ -2910,11 +2912,11 @@ static Type check_statement_impl(TypeChecker *tc, ASTNode *stmt) {
                     /* Verify the union definition exists */
                     UnionDef *union_def = env_get_union(tc->env, info->generic_name);
                     if (!union_def) {
-                        fprintf(stderr, "Error at line %d, column %d: Unknown union '%s'\n",
+                        TC_ERRORF("Error at line %d, column %d: Unknown union '%s'\n",
                                 stmt->line, stmt->column, info->generic_name);
                         tc->has_error = true;
                     } else if (union_def->generic_param_count != info->type_param_count) {
-                        fprintf(stderr, "Error at line %d, column %d: Union '%s' expects %d type parameter(s), got %d\n",
+                        TC_ERRORF("Error at line %d, column %d: Union '%s' expects %d type parameter(s), got %d\n",
                                 stmt->line, stmt->column, info->generic_name,
                                 union_def->generic_param_count, info->type_param_count);
                         tc->has_error = true;
@@ -2943,30 +2945,30 @@ static Type check_statement_impl(TypeChecker *tc, ASTNode *stmt) {
             if (declared_type == TYPE_HASHMAP && stmt->as.let.type_info) {
                 TypeInfo *info = stmt->as.let.type_info;
                 if (!info->generic_name || strcmp(info->generic_name, "HashMap") != 0) {
-                    fprintf(stderr, "Error at line %d, column %d: Invalid HashMap type annotation\n",
+                    TC_ERRORF("Error at line %d, column %d: Invalid HashMap type annotation\n",
                             stmt->line, stmt->column);
                     tc->has_error = true;
                 } else if (info->type_param_count != 2) {
-                    fprintf(stderr, "Error at line %d, column %d: HashMap expects 2 type parameter(s), got %d\n",
+                    TC_ERRORF("Error at line %d, column %d: HashMap expects 2 type parameter(s), got %d\n",
                             stmt->line, stmt->column, info->type_param_count);
                     tc->has_error = true;
                 } else {
                     Type key_t = TYPE_UNKNOWN;
                     Type val_t = TYPE_UNKNOWN;
                     if (!hashmap_extract_kv(info, &key_t, &val_t)) {
-                        fprintf(stderr, "Error at line %d, column %d: Invalid HashMap type annotation\n",
+                        TC_ERRORF("Error at line %d, column %d: Invalid HashMap type annotation\n",
                                 stmt->line, stmt->column);
                         tc->has_error = true;
                     }
 
                     /* Current runtime supports hashing for int and string keys only */
                     if (!(key_t == TYPE_INT || key_t == TYPE_STRING)) {
-                        fprintf(stderr, "Error at line %d, column %d: HashMap key type must be int or string (got %s)\n",
+                        TC_ERRORF("Error at line %d, column %d: HashMap key type must be int or string (got %s)\n",
                                 stmt->line, stmt->column, type_to_string(key_t));
                         tc->has_error = true;
                     }
                     if (!(val_t == TYPE_INT || val_t == TYPE_STRING)) {
-                        fprintf(stderr, "Error at line %d, column %d: HashMap value type must be int or string (got %s)\n",
+                        TC_ERRORF("Error at line %d, column %d: HashMap value type must be int or string (got %s)\n",
                                 stmt->line, stmt->column, type_to_string(val_t));
                         tc->has_error = true;
                     }
@@ -3004,7 +3006,7 @@ static Type check_statement_impl(TypeChecker *tc, ASTNode *stmt) {
                         /* Fill in the struct name for type checking */
                         struct_lit->as.struct_literal.struct_name = strdup(stmt->as.let.type_name);
                     } else {
-                        fprintf(stderr, "Error at line %d, column %d: Cannot infer struct type for anonymous literal\n",
+                        TC_ERRORF("Error at line %d, column %d: Cannot infer struct type for anonymous literal\n",
                                 struct_lit->line, struct_lit->column);
                         tc->has_error = true;
                     }
@@ -3097,7 +3099,7 @@ static Type check_statement_impl(TypeChecker *tc, ASTNode *stmt) {
                 /* Check if signatures match */
                 if (declared_sig && value_sig) {
                     if (!function_signatures_equal(declared_sig, value_sig)) {
-                        fprintf(stderr, "Error at line %d, column %d: Function signature mismatch in let statement\n", stmt->line, stmt->column);
+                        TC_ERRORF("Error at line %d, column %d: Function signature mismatch in let statement\n", stmt->line, stmt->column);
                         tc->has_error = true;
                     }
                 } else if (!declared_sig || !value_sig) {
@@ -3264,7 +3266,7 @@ static Type check_statement_impl(TypeChecker *tc, ASTNode *stmt) {
             }
 
             if (!sym->is_mut) {
-                fprintf(stderr, "Error at line %d, column %d: Cannot assign to immutable variable '%s'\n",
+                TC_ERRORF("Error at line %d, column %d: Cannot assign to immutable variable '%s'\n",
                         stmt->line, stmt->column, stmt->as.set.name);
                 tc->has_error = true;
             }
@@ -3358,7 +3360,7 @@ static Type check_statement_impl(TypeChecker *tc, ASTNode *stmt) {
 
         case AST_BREAK: {
             if (tc->loop_depth == 0) {
-                fprintf(stderr, "Error at line %d, column %d: 'break' outside loop\n", stmt->line, stmt->column);
+                TC_ERRORF("Error at line %d, column %d: 'break' outside loop\n", stmt->line, stmt->column);
                 tc->has_error = true;
             }
             return TYPE_VOID;
@@ -3366,7 +3368,7 @@ static Type check_statement_impl(TypeChecker *tc, ASTNode *stmt) {
 
         case AST_CONTINUE: {
             if (tc->loop_depth == 0) {
-                fprintf(stderr, "Error at line %d, column %d: 'continue' outside loop\n", stmt->line, stmt->column);
+                TC_ERRORF("Error at line %d, column %d: 'continue' outside loop\n", stmt->line, stmt->column);
                 tc->has_error = true;
             }
             return TYPE_VOID;
@@ -3383,7 +3385,7 @@ static Type check_statement_impl(TypeChecker *tc, ASTNode *stmt) {
                             /* Fill in the struct name for type checking */
                             struct_lit->as.struct_literal.struct_name = strdup(tc->current_function_return_struct_name);
                         } else {
-                            fprintf(stderr, "Error at line %d, column %d: Cannot infer struct type for anonymous literal in return\n",
+                            TC_ERRORF("Error at line %d, column %d: Cannot infer struct type for anonymous literal in return\n",
                                     struct_lit->line, struct_lit->column);
                             tc->has_error = true;
                         }
@@ -3392,12 +3394,12 @@ static Type check_statement_impl(TypeChecker *tc, ASTNode *stmt) {
                 
                 Type return_type = check_expression(stmt->as.return_stmt.value, tc->env);
                 if (!types_match(return_type, tc->current_function_return_type)) {
-                    fprintf(stderr, "Error at line %d, column %d: Return type mismatch\n", stmt->line, stmt->column);
+                    TC_ERRORF("Error at line %d, column %d: Return type mismatch\n", stmt->line, stmt->column);
                     tc->has_error = true;
                 }
             } else {
                 if (tc->current_function_return_type != TYPE_VOID) {
-                    fprintf(stderr, "Error at line %d, column %d: Function must return a value\n", stmt->line, stmt->column);
+                    TC_ERRORF("Error at line %d, column %d: Function must return a value\n", stmt->line, stmt->column);
                     tc->has_error = true;
                 }
             }
@@ -3420,7 +3422,7 @@ static Type check_statement_impl(TypeChecker *tc, ASTNode *stmt) {
         case AST_ASSERT: {
             Type cond_type = check_expression(stmt->as.assert.condition, tc->env);
             if (cond_type != TYPE_BOOL) {
-                fprintf(stderr, "Error at line %d, column %d: Assert condition must be bool\n", stmt->line, stmt->column);
+                TC_ERRORF("Error at line %d, column %d: Assert condition must be bool\n", stmt->line, stmt->column);
                 tc->has_error = true;
             }
             return TYPE_VOID;
@@ -3628,7 +3630,7 @@ static Type check_statement_impl(TypeChecker *tc, ASTNode *stmt) {
                         
                         /* Check if unsafe context is required */
                         if (!tc->in_unsafe_block && !tc->env->current_module_is_unsafe) {
-                            fprintf(stderr, "Error at line %d, column %d: Call to extern function '%s' requires unsafe block or unsafe module\n",
+                            TC_ERRORF("Error at line %d, column %d: Call to extern function '%s' requires unsafe block or unsafe module\n",
                                     stmt->line, stmt->column, stmt->as.call.name);
                             fprintf(stderr, "  Note: Extern functions can perform arbitrary operations.\n");
                             fprintf(stderr, "  Hint: Either wrap the call in 'unsafe { ... }' or declare the module as 'unsafe module name { ... }'\n");
@@ -4850,7 +4852,7 @@ bool type_check(ASTNode *program, Environment *env) {
             if (item->as.import_stmt.is_unsafe) {
                 if (env->forbid_unsafe) {
                     /* --forbid-unsafe: Error on unsafe module imports */
-                    fprintf(stderr, "Error at line %d, column %d: Unsafe module import forbidden: '%s'\n",
+                    TC_ERRORF("Error at line %d, column %d: Unsafe module import forbidden: '%s'\n",
                             item->line, item->column, path);
                     fprintf(stderr, "  Note: Compiled with --forbid-unsafe flag\n");
                     fprintf(stderr, "  Hint: Remove --forbid-unsafe or use safe modules only\n");
@@ -4897,7 +4899,7 @@ bool type_check(ASTNode *program, Environment *env) {
             
             /* Check if struct already defined */
             if (env_get_struct(env, struct_name)) {
-                fprintf(stderr, "Error at line %d, column %d: Struct '%s' is already defined\n",
+                TC_ERRORF("Error at line %d, column %d: Struct '%s' is already defined\n",
                         item->line, item->column, struct_name);
                 tc.has_error = true;
                 continue;
@@ -4970,7 +4972,7 @@ sdef.is_pub = item->as.struct_def.is_pub;            /* Propagate public visibil
             
             /* Check if union already defined */
             if (env_get_union(env, union_name)) {
-                fprintf(stderr, "Error at line %d, column %d: Union '%s' is already defined\n",
+                TC_ERRORF("Error at line %d, column %d: Union '%s' is already defined\n",
                         item->line, item->column, union_name);
                 tc.has_error = true;
                 continue;
@@ -5051,7 +5053,7 @@ sdef.is_pub = item->as.struct_def.is_pub;            /* Propagate public visibil
             
             /* Check if opaque type already defined */
             if (env_get_opaque_type(env, type_name)) {
-                fprintf(stderr, "Error at line %d, column %d: Opaque type '%s' is already defined\n",
+                TC_ERRORF("Error at line %d, column %d: Opaque type '%s' is already defined\n",
                         item->line, item->column, type_name);
                 tc.has_error = true;
                 continue;
@@ -5174,7 +5176,7 @@ sdef.is_pub = item->as.struct_def.is_pub;            /* Propagate public visibil
             
             /* Check if function name collides with built-in (but allow extern functions) */
             if (!item->as.function.is_extern && is_builtin_name(func_name)) {
-                fprintf(stderr, "Error at line %d, column %d: Cannot redefine built-in function '%s'\n",
+                TC_ERRORF("Error at line %d, column %d: Cannot redefine built-in function '%s'\n",
                         item->line, item->column, func_name);
                 fprintf(stderr, "  Built-in functions cannot be shadowed\n");
                 fprintf(stderr, "  Choose a different function name\n");
@@ -5201,7 +5203,7 @@ sdef.is_pub = item->as.struct_def.is_pub;            /* Propagate public visibil
 
                 /* Extern functions cannot be redefined or shadowed */
                 if (existing->is_extern) {
-                    fprintf(stderr, "Error at line %d, column %d: Extern function '%s' cannot be redefined\n",
+                    TC_ERRORF("Error at line %d, column %d: Extern function '%s' cannot be redefined\n",
                             item->line, item->column, func_name);
                     fprintf(stderr, "  Extern functions are first-class and cannot be shadowed\n");
                     fprintf(stderr, "  Previous extern declaration at line %d, column %d\n",
@@ -5211,7 +5213,7 @@ sdef.is_pub = item->as.struct_def.is_pub;            /* Propagate public visibil
                 }
                 /* Regular functions cannot be redefined */
                 if (existing->body != NULL) {
-                    fprintf(stderr, "Error at line %d, column %d: Function '%s' is already defined\n",
+                    TC_ERRORF("Error at line %d, column %d: Function '%s' is already defined\n",
                             item->line, item->column, func_name);
                     fprintf(stderr, "  Previous definition at line %d, column %d\n",
                             existing->body->line, existing->body->column);
@@ -5220,7 +5222,7 @@ sdef.is_pub = item->as.struct_def.is_pub;            /* Propagate public visibil
                 }
                 /* Regular functions cannot shadow extern functions */
                 if (!item->as.function.is_extern && existing->is_extern) {
-                    fprintf(stderr, "Error at line %d, column %d: Function '%s' cannot shadow extern function\n",
+                    TC_ERRORF("Error at line %d, column %d: Function '%s' cannot shadow extern function\n",
                             item->line, item->column, func_name);
                     fprintf(stderr, "  Extern functions are first-class and cannot be shadowed\n");
                     fprintf(stderr, "  Choose a different function name\n");
@@ -5338,12 +5340,12 @@ sdef.is_pub = item->as.struct_def.is_pub;            /* Propagate public visibil
         if (item->type == AST_SHADOW) {
             Function *func = env_get_function(env, item->as.shadow.function_name);
             if (!func) {
-                fprintf(stderr, "Error at line %d, column %d: Shadow test for undefined function '%s'\n",
+                TC_ERRORF("Error at line %d, column %d: Shadow test for undefined function '%s'\n",
                         item->line, item->column, item->as.shadow.function_name);
                 tc.has_error = true;
             } else if (func->is_extern) {
                 /* Extern functions cannot have shadow tests - they're C functions */
-                fprintf(stderr, "Error at line %d, column %d: Shadow test cannot be attached to extern function '%s'\n",
+                TC_ERRORF("Error at line %d, column %d: Shadow test cannot be attached to extern function '%s'\n",
                         item->line, item->column, item->as.shadow.function_name);
                 fprintf(stderr, "  Extern functions are C functions and cannot be tested in the interpreter\n");
                 fprintf(stderr, "  Remove the shadow test or test a wrapper function instead\n");
@@ -5363,7 +5365,7 @@ sdef.is_pub = item->as.struct_def.is_pub;            /* Propagate public visibil
             
             /* Verify it matches the declared type */
             if (item->as.let.var_type != value_type) {
-                fprintf(stderr, "Error at line %d, column %d: Constant '%s' type mismatch (declared %s, got %s)\n",
+                TC_ERRORF("Error at line %d, column %d: Constant '%s' type mismatch (declared %s, got %s)\n",
                         item->line, item->column,
                         item->as.let.name,
                         type_to_string(item->as.let.var_type),
@@ -5450,17 +5452,17 @@ sdef.is_pub = item->as.struct_def.is_pub;            /* Propagate public visibil
                 Type key_t = TYPE_UNKNOWN;
                 Type val_t = TYPE_UNKNOWN;
                 if (!hashmap_extract_kv(info, &key_t, &val_t)) {
-                    fprintf(stderr, "Error at line %d, column %d: Invalid HashMap return type annotation\n",
+                    TC_ERRORF("Error at line %d, column %d: Invalid HashMap return type annotation\n",
                             item->line, item->column);
                     tc.has_error = true;
                 } else {
                     if (!(key_t == TYPE_INT || key_t == TYPE_STRING)) {
-                        fprintf(stderr, "Error at line %d, column %d: HashMap key type must be int or string (got %s)\n",
+                        TC_ERRORF("Error at line %d, column %d: HashMap key type must be int or string (got %s)\n",
                                 item->line, item->column, type_to_string(key_t));
                         tc.has_error = true;
                     }
                     if (!(val_t == TYPE_INT || val_t == TYPE_STRING)) {
-                        fprintf(stderr, "Error at line %d, column %d: HashMap value type must be int or string (got %s)\n",
+                        TC_ERRORF("Error at line %d, column %d: HashMap value type must be int or string (got %s)\n",
                                 item->line, item->column, type_to_string(val_t));
                         tc.has_error = true;
                     }
@@ -5489,17 +5491,17 @@ sdef.is_pub = item->as.struct_def.is_pub;            /* Propagate public visibil
                     Type key_t = TYPE_UNKNOWN;
                     Type val_t = TYPE_UNKNOWN;
                     if (!hashmap_extract_kv(param_type_info, &key_t, &val_t)) {
-                        fprintf(stderr, "Error at line %d, column %d: Invalid HashMap parameter type annotation\n",
+                        TC_ERRORF("Error at line %d, column %d: Invalid HashMap parameter type annotation\n",
                                 item->line, item->column);
                         tc.has_error = true;
                     } else {
                         if (!(key_t == TYPE_INT || key_t == TYPE_STRING)) {
-                            fprintf(stderr, "Error at line %d, column %d: HashMap key type must be int or string (got %s)\n",
+                            TC_ERRORF("Error at line %d, column %d: HashMap key type must be int or string (got %s)\n",
                                     item->line, item->column, type_to_string(key_t));
                             tc.has_error = true;
                         }
                         if (!(val_t == TYPE_INT || val_t == TYPE_STRING)) {
-                            fprintf(stderr, "Error at line %d, column %d: HashMap value type must be int or string (got %s)\n",
+                            TC_ERRORF("Error at line %d, column %d: HashMap value type must be int or string (got %s)\n",
                                     item->line, item->column, type_to_string(val_t));
                             tc.has_error = true;
                         }
@@ -5655,7 +5657,7 @@ bool type_check_module(ASTNode *program, Environment *env) {
             
             /* Check if struct already defined */
             if (env_get_struct(env, struct_name)) {
-                fprintf(stderr, "Error at line %d, column %d: Struct '%s' is already defined\n",
+                TC_ERRORF("Error at line %d, column %d: Struct '%s' is already defined\n",
                         item->line, item->column, struct_name);
                 tc.has_error = true;
                 continue;
@@ -5728,7 +5730,7 @@ sdef.is_pub = item->as.struct_def.is_pub;            /* Propagate public visibil
             
             /* Check if union already defined */
             if (env_get_union(env, union_name)) {
-                fprintf(stderr, "Error at line %d, column %d: Union '%s' is already defined\n",
+                TC_ERRORF("Error at line %d, column %d: Union '%s' is already defined\n",
                         item->line, item->column, union_name);
                 tc.has_error = true;
                 continue;
@@ -5809,7 +5811,7 @@ sdef.is_pub = item->as.struct_def.is_pub;            /* Propagate public visibil
             
             /* Check if opaque type already defined */
             if (env_get_opaque_type(env, type_name)) {
-                fprintf(stderr, "Error at line %d, column %d: Opaque type '%s' is already defined\n",
+                TC_ERRORF("Error at line %d, column %d: Opaque type '%s' is already defined\n",
                         item->line, item->column, type_name);
                 tc.has_error = true;
                 continue;
@@ -5936,14 +5938,14 @@ sdef.is_pub = item->as.struct_def.is_pub;            /* Propagate public visibil
 
                 /* Extern functions cannot be redefined or shadowed */
                 if (existing->is_extern) {
-                    fprintf(stderr, "Error at line %d, column %d: Extern function '%s' cannot be redefined\n",
+                    TC_ERRORF("Error at line %d, column %d: Extern function '%s' cannot be redefined\n",
                             item->line, item->column, func_name);
                     fprintf(stderr, "  Extern functions are first-class and cannot be shadowed\n");
                     tc.has_error = true;
                     continue;
                 }
                 /* Regular functions cannot be redefined */
-                fprintf(stderr, "Error at line %d, column %d: Function '%s' is already defined\n",
+                TC_ERRORF("Error at line %d, column %d: Function '%s' is already defined\n",
                         item->line, item->column, func_name);
                 tc.has_error = true;
                 continue;
@@ -5955,7 +5957,7 @@ sdef.is_pub = item->as.struct_def.is_pub;            /* Propagate public visibil
             
             /* Check if function name shadows a built-in */
             if (is_builtin_function(func_name)) {
-                fprintf(stderr, "Error at line %d, column %d: Function '%s' shadows a built-in function\n",
+                TC_ERRORF("Error at line %d, column %d: Function '%s' shadows a built-in function\n",
                         item->line, item->column, func_name);
                 tc.has_error = true;
                 continue;
@@ -6006,13 +6008,13 @@ sdef.is_pub = item->as.struct_def.is_pub;            /* Propagate public visibil
         if (item->type == AST_SHADOW) {
             Function *func = env_get_function(env, item->as.shadow.function_name);
             if (!func) {
-                fprintf(stderr, "Error at line %d, column %d: Shadow test for undefined function '%s'\n",
+                TC_ERRORF("Error at line %d, column %d: Shadow test for undefined function '%s'\n",
                         item->line, item->column, item->as.shadow.function_name);
                 tc.has_error = true;
                 continue;
             } else if (func->is_extern) {
                 /* Extern functions cannot have shadow tests - they're C functions */
-                fprintf(stderr, "Error at line %d, column %d: Shadow test cannot be attached to extern function '%s'\n",
+                TC_ERRORF("Error at line %d, column %d: Shadow test cannot be attached to extern function '%s'\n",
                         item->line, item->column, item->as.shadow.function_name);
                 fprintf(stderr, "  Extern functions are C functions and cannot be tested in the interpreter\n");
                 fprintf(stderr, "  Remove the shadow test or test a wrapper function instead\n");
@@ -6033,7 +6035,7 @@ sdef.is_pub = item->as.struct_def.is_pub;            /* Propagate public visibil
             
             /* Verify it matches the declared type */
             if (item->as.let.var_type != value_type) {
-                fprintf(stderr, "Error at line %d, column %d: Constant '%s' type mismatch (declared %s, got %s)\n",
+                TC_ERRORF("Error at line %d, column %d: Constant '%s' type mismatch (declared %s, got %s)\n",
                         item->line, item->column,
                         item->as.let.name,
                         type_to_string(item->as.let.var_type),
@@ -6127,17 +6129,17 @@ sdef.is_pub = item->as.struct_def.is_pub;            /* Propagate public visibil
                 Type key_t = TYPE_UNKNOWN;
                 Type val_t = TYPE_UNKNOWN;
                 if (!hashmap_extract_kv(info, &key_t, &val_t)) {
-                    fprintf(stderr, "Error at line %d, column %d: Invalid HashMap return type annotation\n",
+                    TC_ERRORF("Error at line %d, column %d: Invalid HashMap return type annotation\n",
                             item->line, item->column);
                     tc.has_error = true;
                 } else {
                     if (!(key_t == TYPE_INT || key_t == TYPE_STRING)) {
-                        fprintf(stderr, "Error at line %d, column %d: HashMap key type must be int or string (got %s)\n",
+                        TC_ERRORF("Error at line %d, column %d: HashMap key type must be int or string (got %s)\n",
                                 item->line, item->column, type_to_string(key_t));
                         tc.has_error = true;
                     }
                     if (!(val_t == TYPE_INT || val_t == TYPE_STRING)) {
-                        fprintf(stderr, "Error at line %d, column %d: HashMap value type must be int or string (got %s)\n",
+                        TC_ERRORF("Error at line %d, column %d: HashMap value type must be int or string (got %s)\n",
                                 item->line, item->column, type_to_string(val_t));
                         tc.has_error = true;
                     }
@@ -6163,17 +6165,17 @@ sdef.is_pub = item->as.struct_def.is_pub;            /* Propagate public visibil
                     Type key_t = TYPE_UNKNOWN;
                     Type val_t = TYPE_UNKNOWN;
                     if (!hashmap_extract_kv(param_type_info, &key_t, &val_t)) {
-                        fprintf(stderr, "Error at line %d, column %d: Invalid HashMap parameter type annotation\n",
+                        TC_ERRORF("Error at line %d, column %d: Invalid HashMap parameter type annotation\n",
                                 item->line, item->column);
                         tc.has_error = true;
                     } else {
                         if (!(key_t == TYPE_INT || key_t == TYPE_STRING)) {
-                            fprintf(stderr, "Error at line %d, column %d: HashMap key type must be int or string (got %s)\n",
+                            TC_ERRORF("Error at line %d, column %d: HashMap key type must be int or string (got %s)\n",
                                     item->line, item->column, type_to_string(key_t));
                             tc.has_error = true;
                         }
                         if (!(val_t == TYPE_INT || val_t == TYPE_STRING)) {
-                            fprintf(stderr, "Error at line %d, column %d: HashMap value type must be int or string (got %s)\n",
+                            TC_ERRORF("Error at line %d, column %d: HashMap value type must be int or string (got %s)\n",
                                     item->line, item->column, type_to_string(val_t));
                             tc.has_error = true;
                         }
